@@ -79,6 +79,12 @@ fn main() {
             }
             println!("ZSTSTAT cases={} bad={}", cases, bad);
         }
+        "serdezst" => {
+            // C20 for zero-sized and one-byte element types (the scripted element kinds start at 16 bytes):
+            // whatever length the input claims, the room reserved before the first element is read is
+            // bounded by a small constant, and nothing panics
+            serdedrv::zst_probe();
+        }
         "run" => {
             let text = std::fs::read_to_string(&args[2]).expect("script");
             // a file may hold several scripts separated by lines `=== <name>`
